@@ -260,6 +260,7 @@ def ev(case, rec):
         o, d, path = frontier.pop(0)
         if d >= case['depth']:
             continue
+        o_key = skey(o)
         for label, fn in transitions(o, cfg):
             rec.transitions += 1
             site = 'coord:' + label.split(':')[0]
@@ -271,6 +272,11 @@ def ev(case, rec):
                 rec.outcome('raise')
                 continue
             flagged = []
+            if skey(o) != o_key:
+                rec.fail('conversion modified the coordinate object it was called on', site=site + ':mutation', observed=repr(o),
+                         coords={'path': path + [label], 'cfg': cfg})
+                rec.outcome('mutated')
+                break
 
             def fail(msg, observed=None, expected=None):
                 flagged.append(msg)
